@@ -26,6 +26,7 @@ def gen_history(rng, model_comparable):
                          "cap": rng.choice(["none", "first", "one", "random", "all"])})
     cur = [dict(o) for o in objs]
     ops = []
+    expects = {}     # op index -> the wordlist recipe's fields when the call is made
     saved = []     # (handle, state key, op tokens) for replay invariance
     nops = rng.randrange(2, 31)
     for _ in range(nops):
@@ -84,12 +85,14 @@ def gen_history(rng, model_comparable):
                     words = wlgen.make_tape(rng, wlgen.py_size(o["list"]), o["length"], o["sep"], o["cap"], "sepfail", chargen.DEFAULT_BUDGET)
                     tok = "gen %d %s" % (h, core.src_tokens(core.flat_tape(words)))
                     ops.append(tok)
+                    expects[len(ops) - 1] = {"length": o["length"], "sep": o["sep"], "cap": o["cap"]}
                     # ... and what the recipe reports right afterwards, on a stream that lets the separator succeed
                     ops.append("ent %d %s" % (h, core.src_tokens(core.flat_tape(wlgen.draws_for_sep(rng, o["sep"]) + [1, 2, 3]))))
                     continue
                 words = wlgen.make_tape(rng, wlgen.py_size(o["list"]), o["length"], o["sep"], o["cap"], rng.choice(["random", "first", "last"]))
                 tok = "gen %d %s" % (h, core.src_tokens(core.flat_tape(words)))
                 ops.append(tok)
+                expects[len(ops) - 1] = {"length": o["length"], "sep": o["sep"], "cap": o["cap"]}
                 saved.append((h, state_key(o), tok))
             else:
                 sr = wlgen.sep_recipe(o["sep"])
@@ -104,7 +107,7 @@ def gen_history(rng, model_comparable):
     tl = "0" if not titles or not model_comparable else "%d,%s" % (len(titles), ",".join("%s>%s" % (core.hx(w), core.hx(w.capitalize())) for w in titles))
     head = "%s %d %s" % (tl, nobj, " ".join(obj_tokens(o) for o in objs))
     line = "%s %d %s" % (head, len(ops), " ".join(ops))
-    return line, ops, head
+    return line, ops, head, expects
 
 
 def state_key(o):
@@ -162,9 +165,9 @@ def correspondence(ctx):
     n = 250 if ctx.tier == "quick" else 3000
     lines, metas = [], []
     for i in range(n):
-        line, ops, head = gen_history(rng, model_comparable=True)
+        line, ops, head, expects = gen_history(rng, model_comparable=True)
         lines.append("h%d history %s" % (i, line))
-        metas.append({"ops": ops, "line": "history " + line, "head": head})
+        metas.append({"ops": ops, "line": "history " + line, "head": head, "_expects": expects})
         seen_set = set()
         for o in ops:
             t = o.split(" ")
@@ -211,7 +214,7 @@ def correspondence(ctx):
     # histories with arbitrary word lists: oracle only (the model would need each list's map order)
     olines, ometas = [], []
     for i in range(n // 2):
-        line, ops, kinds = gen_history(rng, model_comparable=False)
+        line, ops, kinds, _ = gen_history(rng, model_comparable=False)
         olines.append("o%d historyo %s" % (i, line))
         ometas.append({"ops": ops, "line": "historyo " + line})
     oimpl, _ = core.run_impl(olines)
@@ -239,6 +242,30 @@ def oracle(ctx, deep):
         if "CHANGED" in a:
             j = next(k for k, p in enumerate(parts) if "CHANGED" in p)
             ctx.violations.append(dict(base, finding_key="C15-mutation", what="a call modified a public field, list or caller slice (operation %d: %s)" % (j, m["ops"][j][:60])))
+            continue
+        # the fields as they are when the call is made: a wordlist password has Length atoms and, with a constant separator, exactly
+        # that string between them (whatever a template the recipe was copied from, or an earlier state of it, says)
+        hit = False
+        for j, exp in sorted(m.get("_expects", {}).items()):
+            if j >= len(parts):
+                continue
+            d = chargen.parse_password(parts[j])
+            if not d or d["outcome"] != "ok":
+                continue
+            atoms = [v for v, ty in d["tokens"] if ty == 1]
+            seps = [v for v, ty in d["tokens"] if ty == 0]
+            why = None
+            if len(atoms) != exp["length"]:
+                why = "%d atoms, the recipe's Length is %d" % (len(atoms), exp["length"])
+            elif exp["sep"][0] in ("char", "const"):
+                want = [exp["sep"][1].encode()] * (exp["length"] - 1) if exp["sep"][1] else []
+                if seps != want:
+                    why = "separators %r, the recipe's constant separator gives %r" % (seps[:4], want[:4])
+            if why:
+                ctx.violations.append(dict(base, finding_key="C15-fields", what="operation %d (%s): %s — the result does not reflect the recipe's current fields" % (j, m["ops"][j][:40], why)))
+                hit = True
+                break
+        if hit:
             continue
         # replay invariance: identical op tokens with no field update of that handle in between must give identical results
         last = {}
